@@ -439,16 +439,16 @@ def check_c03(ctx, R):
     if None in (wname, mba, sep):
         raise AnalysisError("anchor vanished: _output_name_of_cable_wire_ / multibit_add_cable / separate_name_and_index")
 
-    def delims(varname):
+    def delims(marker):
+        """single-character string constants, in source order, of the concatenation that builds the per-bit identifier
+        (contains the EDIF.identifier lookup) or the per-bit name (contains the .NAME lookup)"""
         for a in walk_local(wname.node):
-            if isinstance(a, ast.Assign) and norm(a.targets[0]) == varname and isinstance(a.value, ast.BinOp):
-                consts = [c.value for c in ast.walk(a.value) if isinstance(c, ast.Constant) and isinstance(c.value, str)]
-                # order of appearance in the source
-                consts = [c.value for c in sorted((c for c in ast.walk(a.value) if isinstance(c, ast.Constant) and isinstance(c.value, str) and len(c.value) == 1), key=lambda c: (c.lineno, c.col_offset))]
-                return consts
+            if isinstance(a, ast.Assign) and isinstance(a.value, ast.BinOp) and marker in norm(a.value) and "rename" not in norm(a.value):
+                return [c.value for c in sorted((c for c in ast.walk(a.value) if isinstance(c, ast.Constant) and isinstance(c.value, str) and len(c.value) == 1),
+                                                key=lambda c: (c.lineno, c.col_offset))]
         return None
 
-    idd, nmd = delims("identifier"), delims("rename_name")
+    idd, nmd = delims("'EDIF.identifier'"), delims("'.NAME'")
     calls = [c for c in walk_local(mba.node) if isinstance(c, ast.Call) and norm(c.func) == "self.separate_name_and_index" and len(c.args) == 2 and isinstance(c.args[1], ast.Constant)]
     rd = {}
     for c in calls:
